@@ -74,3 +74,120 @@ PROPS = {
                 runs(["stats", "relations"], 250, 120), runs(["stats", "relations", "generic"], 600, 150)),
     "C20": prop(ALL, runs(["tiny"], 150, 120), runs(["tiny", "tiny"], 300, 150)),
 }
+
+
+# ---------------------------------------------------------------------------------------------
+# extra steps of individual properties
+# ---------------------------------------------------------------------------------------------
+import os, subprocess, json, hashlib
+
+
+def _gen_ops(lib, harness, seed, nseq, nops, profile, workdir, tag):
+    rc, ops, trace, stats, err = lib.run_gen(harness, seed, nseq, nops, profile, workdir, tag)
+    lines = open(ops).read().splitlines() if os.path.exists(ops) else []
+    return rc, lines, (open(trace, errors="replace").read() if os.path.exists(trace) else ""), err
+
+
+def _replay_file(harness, ops_lines, extra_args=(), timeout=600):
+    data = ("\n".join(ops_lines) + "\n").encode()
+    env = dict(os.environ, GOTRACEBACK="none")
+    p = subprocess.run([harness, "-mode", "replay"] + list(extra_args), input=data, capture_output=True, timeout=timeout, env=env)
+    return p.returncode, p.stdout.decode(errors="replace"), p.stderr.decode(errors="replace")
+
+
+def _first_diff_seq(lib, ops_lines, a, b):
+    """the op sequence (world-delimited) containing the first differing trace line"""
+    la, lb = a.splitlines(), b.splitlines()
+    idx = next((i for i, (x, y) in enumerate(zip(la, lb)) if x != y), min(len(la), len(lb)))
+    opn = lib.op_number(la if idx < len(la) else lb, idx)
+    seqs = lib.sequences(ops_lines)
+    s, e = next(((s, e) for s, e in seqs if s < opn <= e), seqs[-1] if seqs else (0, 0))
+    return ops_lines[s:min(e, opn + 1)], la[max(0, idx - 2):idx + 4], lb[max(0, idx - 2):idx + 4]
+
+
+def extra_c12(pid, tier, seed, workdir, driver, lib):
+    """the same history in K separate processes and twice in one process: byte-identical traces"""
+    harness = lib.build_harness(("verif",))
+    k = 4 if tier == "quick" else 12
+    info = {"processes": k, "determinism_histories": 0}
+    viol = []
+    for ri, profile in enumerate(["generic", "relations"] if tier == "quick" else ["generic", "relations", "batch", "observers", "shrink"]):
+        rc, ops, impl, err = _gen_ops(lib, harness, seed * 31 + ri + 5, 60 if tier == "quick" else 200, 120, profile, workdir, "c12-%d" % ri)
+        info["determinism_histories"] += len(lib.sequences(ops))
+        ref = None
+        for proc in range(k):
+            rc2, out, err2 = _replay_file(harness, ops, ("-repeat", "2") if proc == 0 else ())
+            if proc == 0:
+                parts = out.split("=== repeat 1\n")
+                out = parts[0]
+                if len(parts) != 2 or parts[1] != parts[0]:
+                    sub, x, y = _first_diff_seq(lib, ops, parts[0], parts[1] if len(parts) == 2 else "")
+                    viol.append({"property": pid, "kind": "determinism", "what": "two worlds in one process given the same history differ", "ops": sub, "expected_model": x, "observed_impl": y, "facets": ALL, "tags": ["verif"]})
+                    break
+            if ref is None:
+                ref = out
+                if out != impl:
+                    sub, x, y = _first_diff_seq(lib, ops, impl, out)
+                    viol.append({"property": pid, "kind": "determinism", "what": "replaying the generated history in a new process gives a different trace", "ops": sub, "expected_model": x, "observed_impl": y, "facets": ALL, "tags": ["verif"]})
+                    break
+            elif out != ref:
+                sub, x, y = _first_diff_seq(lib, ops, ref, out)
+                viol.append({"property": pid, "kind": "determinism", "what": "the same history executed in two processes gives different traces (handles, iteration order or statistics)", "ops": sub, "expected_model": x, "observed_impl": y, "facets": ALL, "tags": ["verif"]})
+                break
+    info["violations"] = viol
+    return info
+
+
+def extra_c13(pid, tier, seed, workdir, driver, lib):
+    """race-detector run of the concurrent query scenario"""
+    harness = lib.build_harness(("verif",), race=True)
+    rounds = 15 if tier == "quick" else 150
+    env = dict(os.environ, GORACE="halt_on_error=0 exitcode=66", GOTRACEBACK="single")
+    viol = []
+    info = {"race_detector_rounds": 0, "race_reports": 0}
+    for i in range(2 if tier == "quick" else 6):
+        try:
+            p = subprocess.run([harness, "-mode", "conc", "-seed", str(seed * 13 + i), "-nseq", str(rounds)], capture_output=True, timeout=900, env=env)
+            out, err, rc = p.stdout.decode(errors="replace"), p.stderr.decode(errors="replace"), p.returncode
+        except subprocess.TimeoutExpired:
+            out, err, rc = "", "timeout (dead-lock?)", 124
+        info["race_detector_rounds"] += rounds
+        races = err.count("WARNING: DATA RACE")
+        info["race_reports"] += races
+        if rc != 0 or races or "FAIL" in out:
+            what = "data race reported by the race detector" if races else ("concurrent queries returned wrong results or left the world locked" if "FAIL" in out else "concurrent scenario crashed or hung")
+            viol.append({"property": pid, "kind": "concurrency", "what": what + ": " + (out[-600:] + err[-1500:]),
+                         "ops": ["harness -mode conc -seed %d -nseq %d  (built with -race)" % (seed * 13 + i, rounds)],
+                         "observed_impl": (out + err).splitlines()[-30:], "expected_model": ["ok rounds=%d" % rounds], "facets": [], "tags": ["verif", "race"],
+                         "no_ops_replay": True})
+            break
+    info["violations"] = viol
+    return info
+
+
+def extra_c20(pid, tier, seed, workdir, driver, lib):
+    """the same histories (<= 64 component types, including misuse) under the four tag combinations"""
+    builds = [("verif",), ("verif", "ark_tiny"), ("verif", "ark_debug"), ("verif", "ark_tiny", "ark_debug")]
+    bins = [lib.build_harness(b) for b in builds]
+    viol = []
+    info = {"builds_compared": ["+".join(b) for b in builds], "cross_build_histories": 0}
+    for ri in range(2 if tier == "quick" else 6):
+        rc, ops, impl, err = _gen_ops(lib, bins[0], seed * 17 + ri + 3, 80 if tier == "quick" else 300, 120, "tiny", workdir, "c20-%d" % ri)
+        info["cross_build_histories"] += len(lib.sequences(ops))
+        for b, hb in zip(builds[1:], bins[1:]):
+            rc2, out, err2 = _replay_file(hb, ops)
+            if out != impl or rc2 != 0:
+                sub, x, y = _first_diff_seq(lib, ops, impl, out)
+                viol.append({"property": pid, "kind": "build-equivalence",
+                             "what": "builds %s and %s differ on the same history%s" % ("+".join(builds[0]), "+".join(b), " (crash: %s)" % err2[-300:] if rc2 != 0 else ""),
+                             "ops": sub, "expected_model": x, "observed_impl": y, "facets": ALL, "tags": list(b)})
+                break
+        if viol:
+            break
+    info["violations"] = viol
+    return info
+
+
+PROPS["C12"]["extra"] = extra_c12
+PROPS["C13"]["extra"] = extra_c13
+PROPS["C20"]["extra"] = extra_c20
